@@ -146,5 +146,9 @@ def doc_event(text_in, result):
     tin = [t for t in simple_tokens(text_in.replace("\r\n", "\n"))]
     tout = [t for t in simple_tokens(result.get("written", ""))]
     same = [equivalent(a, b) for a, b in zip(tin, tout)]
-    return {"in": [[t[0], t[2]] for t in tin], "out": [[t[0], t[2]] for t in tout], "same": same,
-            "cycles": result.get("cycle", []), "ndiags": len(result.get("diags", [])), "inScope": True}
+    ev = {"in": [[t[0], t[2]] for t in tin], "out": [[t[0], t[2]] for t in tout], "same": same,
+          "cycles": result.get("cycle", []), "ndiags": len(result.get("diags", [])), "inScope": True}
+    if "file" in result:
+        f = result["file"]
+        ev["file"] = {"ok": bool(f.get("ok")), "banner": bool(f.get("banner_first")), "eq": bool(f.get("model_eq"))}
+    return ev
